@@ -26,6 +26,14 @@ impl Block {
     pub fn into_view_without_reset_header(self) -> (r: BlockView) ensures r == self.s_view_keep_header() { unimplemented!() }
     #[verifier::external_body]
     pub fn header(&self) -> (r: Header) ensures r.s_hhash() == self.s_header_hash() { unimplemented!() }
+    // into_view() RECOMPUTES transactions_root / proposals_hash / extra_hash from the body and writes them into the header:
+    // some other view (not the received header's), in which recorded and computed roots agree by construction
+    pub uninterp spec fn s_view_reset_header(&self) -> BlockView;
+    #[verifier::external_body]
+    pub fn into_view(self) -> (r: BlockView)
+        ensures r == self.s_view_reset_header(),
+                r.s_transactions_root() == r.s_calc_transactions_root(), r.s_proposals_hash() == r.s_calc_proposals_hash(),
+                r.s_extra_hash() == r.s_calc_extra_hash() { unimplemented!() }
 }
 impl Header {
     pub uninterp spec fn s_hhash(&self) -> Seq<u8>;
